@@ -39,6 +39,10 @@ Sensitivity (quick tier, seed 1, scratch copy of /repo/tornado):
      saved <= 3 chars)                                                   caught  C22.label_not_prefix at seeds 1..3
      within 150-440 cases (label `http://www.hhh....com/ab?x`), and by replays/C22/shorten-no-gain-www-label.json;
      labels no_gain_full_label / www_no_gain_full_label count the cases that reach that branch.
+  M10 shortened label rebuilt from `proto + "://"` instead of `url[:proto_len]` (found by independent mutation testing;
+     previously caught at 2 of 3 seeds)            caught at every seed by the finite "grid" part (6 schemes x 1/2/3
+     slashes x 8 host lengths x 8 path shapes x shorten x 3 option sets x 2 embeddings) -> C22.label_not_prefix on
+     `http:/hhhhhhhhhhhhhhhhhh.com/a` style inputs (one or three slashes, > 30 chars, with a path).
 The repaired heuristic proposed in findings_inbox/C22-shorten-splits-entity.md makes the check quiet with
 0 exclusions at seeds 1..5.
 """
@@ -51,7 +55,7 @@ from tornado.escape import linkify, xhtml_escape
 PROPERTY = "C22"
 READY = True
 RULE = (
-    "Hypothesis: text = <=8 fragments (URL-like with scheme from a 14-entry pool incl. javascript/data/HTTP, "
+    "finite grid (schemes x 1-3 slashes x lengths around 30 x path shapes x options) + Hypothesis: text = <=8 fragments (URL-like with scheme from a 14-entry pool incl. javascript/data/HTTP, "
     "1-4 slashes or www., host pool, path from a punctuation-rich alphabet; cut probes with & or \" at offset "
     "0..45; 'no-gain' probes of 28..48 chars whose clipped form saves <=3 chars, mostly www. links; wrappers/trailing "
     "punctuation; words; raw entities; arbitrary Unicode) x options (shorten, "
@@ -356,9 +360,46 @@ def run_case(ctx, case):
     ctx.note(case, labels, nontrivial and anchors > 0)
 
 
-PARTS = {"main": run_case}
+# ------------------------------------------------------------------------------------ finite grid
+# schemes x slash counts {1,2,3} x host lengths around the 30-character shortening threshold x path shapes x
+# shorten x require_protocol x permitted sets x extra_params: the same cases at every seed.
+GRID_SCHEMES = ["http", "https", "ftp", "file", "HTTP", "www"]     # "www" = protocol-less www. link
+GRID_SLASHES = ["/", "//", "///"]
+GRID_HOST_LEN = [3, 9, 15, 19, 22, 26, 31, 44]
+GRID_PATHS = ["", "/", "/a", "/ab.c", "/abcdefghijkl", "/abcdefgh/ijkl?m=n", "/a&b/c", "/p/q/r/s/t/u/v/w/x/y/z/0/1/2/3/4/5/6"]
+GRID_OPTIONS = [
+    (False, ["http", "https"], ("str", "")),
+    (False, ["http", "https", "ftp", "file"], ("cb", "rel")),
+    (True, ["http", "ftp", "file"], ("str", 'rel="nofollow"')),
+]
+
+
+def grid_cases():
+    for scheme in GRID_SCHEMES:
+        for slashes in (GRID_SLASHES if scheme != "www" else [""]):
+            for hl in GRID_HOST_LEN:
+                host = ("h" * max(1, hl - 4) + ".com") if hl > 5 else "h.b"[:hl]
+                for path in GRID_PATHS:
+                    url = ("www." + host if scheme == "www" else scheme + ":" + slashes + host) + path
+                    for shorten in (True, False):
+                        for require_protocol, permitted, extra in GRID_OPTIONS:
+                            for text in (url, "see (" + url + "), ok"):
+                                yield {"text": text, "shorten": shorten, "require_protocol": require_protocol,
+                                       "permitted": permitted, "as_set": False, "extra": extra, "as_bytes": False}
+
+
+def run_grid(ctx, case):
+    ctx.label("grid")
+    m = re.search(r"[\w-]+:(/{1,3})[^/]", case["text"])
+    if m and len(m.group(1)) != 2 and case["shorten"]:
+        ctx.label("grid_shorten_one_or_three_slashes")
+    return run_case(ctx, case)
+
+
+PARTS = {"main": run_case, "grid": run_grid}
 
 
 def main(ctx):
     ctx.run_replays(PARTS)
+    ctx.enumerate(grid_cases(), run_grid, name="grid")
     ctx.explore(case_s, run_case, ctx.n(2500, 300000), name="main")
